@@ -43,7 +43,9 @@ class C06(F.PropCheck):
             r = rng.choice(rel)
             inputs += [rng.choice([6, 7, 8, 9, 10, 11]), ty, fl, r[0] if ty != c['IN_SENSOR'] else 255, rng.choice([8, 9]) if ty == c['IN_SENSOR'] else 255]
         tags = []
-        evs = [C7.cfg_event(1, 1, rng.choice([0, 0, 1]), False, rel, t2, [], [ninp] + inputs), ('REG', [], b'')]
+        boot = C7.aged_boot(rng) if rng.random() < 0.06 else 1
+        if boot != 1: tags.append('aged')
+        evs = [C7.cfg_event(boot, 1, rng.choice([0, 0, 1]), False, rel, t2, [], [ninp] + inputs), ('REG', [], b'')]
         room = rng.choice([0, 1, 2, 3, 3, 3])      # iterates after each event: 3 always leaves room
         tags.append('room%d' % room)
         pend = {}
@@ -87,8 +89,35 @@ class C06(F.PropCheck):
             evs += [('ITER', [], b'')] * (2 * n + 2)
         return F.Case(cid, evs, ['alive'])
 
+    def gen_directed(self, rng, cid):
+        """(1) staircase relay that is on + clicks of a toggle-type button (reset-type / plain staircase button), (2) aged device + timed commands"""
+        c = consts(); cd = c['CHFLAG_COUNTDOWN']; it3 = [('ITER', [], b'')] * 3
+        n = rng.choice([1, 2, 3]); gp = rng.sample(C7.GPIOS, n)
+        rel = [(gp[i], i, rng.choice([0, 0, 16, 2]), cd if rng.random() < 0.4 else 0) for i in range(n)]
+        if rng.random() < 0.55:
+            t2 = [0] * 8; i = rng.randrange(n); t2[i] = rng.choice([800, 2000, 5000])
+            ty = rng.choice([c['IN_MONO'], c['IN_MONO'], c['IN_BI']]); fl = rng.choice([0, c['IN_FLAG_ON_PRESS']])
+            inputs = [rng.choice([6, 7, 8]), ty, fl, gp[i], 255]
+            evs = [C7.cfg_event(1, 1, rng.choice([c['SBT_RESET'], c['SBT_RESET'], 1 - c['SBT_RESET']]), False, rel, t2, [], [1] + inputs), ('REG', [], b'')]
+            st = 0
+            if rng.random() < 0.6: evs += [('SETV', [i, 1, 0, 9], b'')] + it3
+            for _ in range(rng.choice([2, 3, 5])):
+                st ^= 1; evs += [('BTN', [0, st], b'')] + it3
+                if rng.random() < 0.6: evs += [('TICK', [rng.choice([100000, 400000, t2[i] * 500])], b'')] + it3
+            evs += [('TICK', [t2[i] * 1000 + 300000], b'')] + it3 * 2
+            return F.Case(cid, evs, ['stair-click'])
+        evs = [C7.cfg_event(C7.aged_boot(rng), 1, 0, False, rel, [0] * 8, [], [0]), ('REG', [], b'')]
+        dmax = 0
+        for i in range(n):
+            d = rng.choice([1500, 5000, 60000]); dmax = max(dmax, d)
+            evs += [('SETV', [i, 1, d, 4], b'')] + it3
+            evs += [('TICK', [rng.choice([1000, 400000, 1000000])], b'')] + it3
+        evs += [('TICK', [2000000], b'')] + it3 + [('TICK', [dmax * 1000 + 500000], b'')] + it3 * 2
+        return F.Case(cid, evs, ['aged'])
+
     def gen_cases(self, rng, n, tier):
-        return [self.gen_alive(rng, '%s%d' % (tier[0], i)) if i % 15 == 14 else self.gen_case(rng, '%s%d' % (tier[0], i), tier) for i in range(n)]
+        return [self.gen_alive(rng, '%s%d' % (tier[0], i)) if i % 15 == 14 else (self.gen_directed(rng, '%s%d' % (tier[0], i)) if i % 15 == 7 else
+                self.gen_case(rng, '%s%d' % (tier[0], i), tier)) for i in range(n)]
 
     # ---------------- monitor
     def monitor(self, case, status, outs):
@@ -122,9 +151,22 @@ class C06(F.PropCheck):
         for k, seg in enumerate(segs[1:]):
             if k >= len(evs): break
             e = evs[k]; drops = [o for o in seg if o[0] == 'DROP']
+            clicked = None           # relay of a toggle-type button on a staircase channel with the reset-type button rule
+            if e[0] == 'BTN' and 0 <= e[1][0] < len(inputs):
+                ig, ity, ifl, irel, ich = inputs[e[1][0]]
+                if ity in (c['IN_MONO'], c['IN_BI']) and irel in pinidx:
+                    ch_ = rel[pinidx[irel]][1]
+                    if ch_ < c['T2_COUNT'] and time2[ch_] > 0 and cfg['sbt'] == c['SBT_RESET']: clicked = pinidx[irel]
             for o in seg[:-1]:
                 if o[0] == 'GPIO' and o[1][1] in pin:
                     pin[o[1][1]] = o[1][2]
+                    i_ = pinidx[o[1][1]]
+                    if clicked == i_ and level(i_) == 0:
+                        v.append('STAIR-CLICK a click of the (reset-type) staircase button switched relay gpio %d (channel %d, staircase time %d ms) OFF; it must restart the period and leave it on' %
+                                 (rel[i_][0], rel[i_][1], time2[rel[i_][1]]))
+                    if e[0] == 'TICK' and i_ in timed and level(i_) == 0 and o[1][0] - timed[i_][0] <= (timed[i_][1] - 1) * 1000:
+                        v.append('EARLY relay gpio %d switched back %d us after "on for %d ms" (channel %d)' % (rel[i_][0], o[1][0] - timed[i_][0], timed[i_][1], rel[i_][1]))
+                        del timed[i_]
                     if registered: changed.add(rel[pinidx[o[1][1]]][1])
                 elif o[0] == 'VAL': reported[o[1][1]] = o[1][2]
                 elif o[0] == 'RES': got_res.append(tuple(o[1][1:4]))
@@ -153,7 +195,10 @@ class C06(F.PropCheck):
                     # when it also sends a timer state, i.e. on a countdown-capable channel (timed command, or cancelling a running timer)
                     cls = 'BURST-SET' if (drops and bool(rel[i][3] & CD) and qprev == (0, 0)) else ('QUEUE-FULL' if drops else None)
                     expect_res.append((k, ch, sender & 0xFFFFFFFF if sender < 0 else sender, 1 if level(i) == want else 0, cls))
-                    if cls: blame[ch] = cls
+                    if cls:
+                        blame[ch] = cls
+                        # the handler also evaluates the running timers (countdown()): a switch-back report of another channel may be the refused call
+                        for r in rel: blame.setdefault(r[1], cls)
                 else:
                     # no such relay channel: the device still answers (Success = 0); not part of the statement, kept to stay in step
                     sender = e[1][3] if e[0] == 'SETV' else 0
